@@ -42,6 +42,27 @@ Encoding (list of ints; see enc_lres / enc_ires in Introspect.v, rec_z in Histor
   DB:    per task id [0] | [1; mask(deps) or -1; len(deps) or -1; checker; result id or -1; ignore] ++ 4 ints per
          dependency file ++ one int per value key
   run:   [1 I | 2 U | 3 R | 4 E] per compared task
+
+clean --dry-run over clean LISTS (CleanWorld / CleanRunner below; model: Introspect.v, last part, `cclean_cmd`)
+  Worlds of up to 9 tasks (T0 T1 T2, group G with G:a G:b, _P, C, D) with random task_dep / setup edges, an optional
+  DOIT_CONFIG default_tasks, and for every task `clean: True`, no clean, or a LIST of clean actions of the kinds
+      T  doit.task.clean_targets (the real function, unwrapped)
+      D  python callable WITH a `dryrun` parameter (4 signatures), instrumented: records the flag it got and touches
+         files only when the flag is false
+      P  python callable WITHOUT it (3 signatures; some return False), removes / creates files
+      S  shell command (string, argument list or CmdAction object; some exit 1) that removes / creates files
+  every sequence over {T,D,P,S} up to length 3 (thorough: 4) occurs as some task's list, longer ones at random.
+  After a real `run` (and some `forget`s / deleted files) a batch of `clean -n` commands with every combination of
+  -c / -a / --forget and positional selections (names, wild-cards, unknown name) is executed through DoitMain, each
+  between two snapshots of the file tree and of the logical DB.  What is invoked is recorded without touching doit:
+  a sys.setprofile hook notes every call of Task.clean, PythonAction.execute, CmdAction.execute and clean_targets
+  (with the position in the command's output, so that hook records and printed lines form ONE sequence); the
+  instrumented callables add the flag they received.  The world ends with one real clean and a dry-run after it.
+  Oracle (no model): on a dry-run no cmd-action and no python-action of kind P is invoked, every D / clean_targets
+  call got dryrun=True, no task action ran, file tree and DB records are identical.
+  Encoding (enc_cres): [0] cleaned ids -1 events -1 one 0/1 per file 0..14 -7 DB | [96] InvalidCommand | [97] KeyError
+      events: [1; t; dryrun] Task.clean entered | [2; t; i] "t - executing '...'" (i-th of t) |
+              [3; t; i; 0/1 flag received, 2 no dryrun parameter / cmd] action i executed | [4; t; f] "t - removing file 'f'"
 """
 import contextlib, gc, hashlib, io, json, os, re, shutil, sys, time
 import common
@@ -65,7 +86,7 @@ BACKEND_COQ = {'json': 'BJson', 'dbm': 'BDbm', 'sqlite': 'BSqlite'}
 STATUS_Z = {'up-to-date': 0, 'run': 1, 'error': 2, 'ignored': 3}
 LETTER_Z = {'I': 1, 'U': 2, 'R': 3, 'E': 4}
 
-PRE = ('From DoitV Require Import Base Status History Introspect.\nOpen Scope Z_scope.\n'
+PRE = ('From DoitV Require Import Base Status History Introspect.\nFrom DoitV Require Clean.\nOpen Scope Z_scope.\n'
        'Definition md5o (c : N) : N := c.\n'
        'Definition TASKS : list name := [0;1;2;3;4;5;6;7;8;9]%N.\n'
        'Definition FILES : list file := [0;1;2;3;4]%N.\n'
@@ -77,10 +98,20 @@ PRE = ('From DoitV Require Import Base Status History Introspect.\nOpen Scope Z_
        '{| file_dep := fd; targets := tg; uptodate := u; act_values := []; act_result := None |}.\n'
        'Definition RC (dp : option (list file)) (ck : option ck) (sv : file -> option fstate) (vl : vals) (rs : option N) (ig : bool) : rec := '
        '{| r_deps := dp; r_checker := ck; r_saved := sv; r_values := vl; r_result := rs; r_ignore := ig |}.\n'
-       'Definition FM (m s : Z) (c : N) : option meta := Some {| mtime := m; size := s; content := c |}.\n')
+       'Definition FM (m s : Z) (c : N) : option meta := Some {| mtime := m; size := s; content := c |}.\n'
+       'Definition CFILES : list file := [0;1;2;3;4;5;6;7;8;9;10;11;12;13;14]%N.\n'
+       'Definition fm (tab : list (list N)) (n : N) (p : N) : bool := mem n (nth (N.to_nat p) tab []).\n'
+       'Definition CT (n : name) (td su : list name) (sub : option name) (cl : option (list cact)) (tg : list file) : ctask := '
+       '{| ct_name := n; ct_task_dep := td; ct_setup := su; ct_subtask_of := sub; ct_clean := cl; ct_targets := tg |}.\n'
+       'Definition CO (dry cd ca fg : bool) (pos : list (Clean.sel N)) (sl : option (list (Clean.sel N))) : Clean.opts N := '
+       '{| Clean.o_dryrun := dry; Clean.o_cleandep := cd; Clean.o_cleanall := ca; Clean.o_forget := fg; Clean.o_pos := pos; Clean.o_sel := sl |}.\n'
+       'Definition CW (fs : cfs) (d : db) : cworld := {| c_fs := fs; c_db := d; c_ev := [] |}.\n'
+       'Definition DRY (ops : list fop) : cact := CPyDry (fun d : bool => if d then [] else ops).\n'
+       'Definition SN (n : N) : Clean.sel N := Clean.SName n.\nDefinition SP (p : N) : Clean.sel N := Clean.SPat p.\n')
 
 RAN = []          # names of tasks whose (instrumented) action ran
 CLEANED = []      # (task, kind, dryrun) of clean actions that ran
+TRACE = []        # clean commands: hook records and callable records, in order (see CleanTrace)
 
 
 _IDX = [0]
@@ -138,6 +169,49 @@ class RecReporter:
 
     def complete_run(self):
         pass
+
+
+# ------------------------------------------------------------------ who is invoked during a clean command
+class CleanTrace:
+    """sys.setprofile hook (doit itself is not patched or wrapped): every call of Task.clean, PythonAction.execute,
+    CmdAction.execute and doit.task.clean_targets is appended to TRACE with the current length of the command's
+    output, so that these records and the printed lines can be merged into one sequence.
+        ('clean', task, dryrun, pos) | ('exec', task, index in task.clean_actions or None, 'py'|'cmd', pos) |
+        ('targets', task, dryrun, pos);   the instrumented callables add ('got', task, index, flag or None)"""
+    def __init__(self, buf):
+        self.buf = buf
+
+    def __enter__(self):
+        from doit import task as T, action as A
+        self.codes = {T.Task.clean.__code__: 'clean', T.clean_targets.__code__: 'targets',
+                      A.PythonAction.execute.__code__: 'py', A.CmdAction.execute.__code__: 'cmd'}
+        del TRACE[:]
+        sys.setprofile(self.hook)
+        return self
+
+    def hook(self, frame, event, arg):
+        if event != 'call':
+            return
+        k = self.codes.get(frame.f_code)
+        if k is None:
+            return
+        loc, pos = frame.f_locals, self.buf.tell()
+        if k == 'clean':
+            TRACE.append(('clean', loc['self'].name, loc.get('dryrun'), pos))
+        elif k == 'targets':
+            TRACE.append(('targets', getattr(loc.get('task'), 'name', None), loc.get('dryrun'), pos))
+        else:
+            act = loc['self']
+            t = getattr(act, 'task', None)
+            idx = None
+            for i, a in enumerate(getattr(t, 'clean_actions', ()) or ()):
+                if a is act:
+                    idx = i
+            TRACE.append(('exec', getattr(t, 'name', None), idx, k, pos))
+
+    def __exit__(self, *a):
+        sys.setprofile(None)
+        return False
 
 
 # ------------------------------------------------------------------ the world: one history on one backend
@@ -251,7 +325,7 @@ class World:
                 return {'actions': acts, 'file_dep': [w.path(f) for f in sorted(d['file_dep'])],
                         'targets': [w.path(5 + t)] if d['target'] else [],
                         'uptodate': [w.make_utd(u) for u in d['uptodate']],
-                        'clean': [True, [clean_plain(name)], [clean_dry(name)]][t]}
+                        'clean': [True, [clean_dry(name), clean_plain(name)], [clean_dry(name)]][t]}
             creator.__name__ = 'task_T%d' % t
             return creator
         for t in range(3):
@@ -293,7 +367,7 @@ class World:
         return loader.load_tasks(self.namespace(), allow_delayed=False)
 
     # ---- running a command in-process
-    def doit(self, args):
+    def doit(self, args, trace=False):
         from doit.doit_cmd import DoitMain
         from doit.cmd_base import ModuleTaskLoader
         from doit.globals import Globals
@@ -303,7 +377,7 @@ class World:
         cwd = os.getcwd()
         os.chdir(self.dir)                 # a command that forgot the configured dep_file would write here, and be noticed
         try:
-            with contextlib.redirect_stdout(buf), contextlib.redirect_stderr(buf):
+            with contextlib.redirect_stdout(buf), contextlib.redirect_stderr(buf), (CleanTrace(buf) if trace else contextlib.nullcontext()):
                 try:
                     rc = DoitMain(ModuleTaskLoader(self.namespace())).run(args)
                 except SystemExit:
@@ -725,7 +799,7 @@ class Runner:
             st = State(w, recs0, tasks)
         del RAN[:]
         del CLEANED[:]
-        rc, txt, _ = w.doit(args)
+        rc, txt, _ = w.doit(args, trace=(args[0] == 'clean'))
         self.ncmd += 1
         out.count('cmd:' + ' '.join(a for a in args[:1]))
         recs1, fs1 = w.db_records(), w.fs_snapshot()
@@ -734,6 +808,8 @@ class Runner:
         if RAN:
             self.violation('`%s` executed task actions %s' % (label, RAN), 'readonly-executed-action', dict(cmd=label))
         bad_clean = [c for c in CLEANED if c[1] == 'plain' or c[2] is not True]
+        if args[0] == 'clean':
+            bad_clean += [(r[1], 'cmd-action #%s' % r[2], None) for r in TRACE if r[0] == 'exec' and r[3] == 'cmd']
         if bad_clean:
             self.violation('`%s` executed clean actions %s' % (label, bad_clean), 'dryrun-executed-clean-action', dict(cmd=label))
         if fs1 != fs0:
@@ -959,6 +1035,455 @@ class Runner:
         return self.cases
 
 
+# ------------------------------------------------------------------ clean --dry-run over clean lists
+CFILES = list(range(15))
+CLEAN_NAMES = ['T0', 'T1', 'T2', 'G:a', 'G:b', '_P', 'C', 'D']     # the tasks that can carry a clean attribute
+RX_ANNOUNCE = re.compile(r"^(\S+) - executing '")
+RX_REMOVING = re.compile(r"^(\S+) - removing file '(.*)'$")
+D_SIGS = ['(dryrun)', '(task, dryrun)', '(dryrun=False)', '(*, dryrun)']
+P_SIGS = ['()', '(task)', '(**kw)']
+
+
+def act_kind(a):
+    return a[0]
+
+
+def coq_ops(ops):
+    return '[' + '; '.join('%s %d%%N' % ('FRemove' if o == 'rm' else 'FCreate', f) for o, f in ops) + ']'
+
+
+def coq_act(a):
+    k = a[0]
+    if k == 'T':
+        return 'CTargets'
+    return '%s %s' % ({'D': 'DRY', 'P': 'CPyPlain', 'S': 'CCmd'}[k], coq_ops(a[2]))
+
+
+class CleanWorld(World):
+    """tasks with clean lists; files f0..f4 (file_dep), g0..g9 (5..9 targets, 10..14 other files the clean actions touch)"""
+    def __init__(self, ctx, backend, spec):
+        World.__init__(self, ctx, backend, {})
+        self.spec = spec
+
+    def apply_ops(self, ops):
+        for o, f in ops:
+            p = self.path(f)
+            if o == 'rm':
+                if os.path.exists(p):
+                    os.remove(p)
+            else:
+                open(p, 'a').close()
+
+    def make_clean(self, name, idx, a):
+        """the clean action `a` of task `name` as it is written in a dodo file"""
+        w, k = self, a[0]
+        if k == 'T':
+            from doit.task import clean_targets
+            return clean_targets
+        variant, ops = a[1], a[2]
+        fail = len(a) > 3 and a[3]
+        if k == 'D':
+            def body(dryrun):
+                TRACE.append(('got', name, idx, dryrun))
+                CLEANED.append((name, 'takes-dryrun', dryrun))
+                if not dryrun:                     # the callable honours the flag
+                    w.apply_ops(ops)
+            if variant == 0:
+                def c(dryrun):
+                    body(dryrun)
+            elif variant == 1:
+                def c(task, dryrun):
+                    body(dryrun)
+            elif variant == 2:
+                def c(dryrun=False):
+                    body(dryrun)
+            else:
+                def c(*, dryrun):
+                    body(dryrun)
+            return c
+        if k == 'P':
+            def body():
+                TRACE.append(('got', name, idx, None))
+                CLEANED.append((name, 'plain', None))
+                w.apply_ops(ops)
+                return False if fail else None
+            if variant == 0:
+                def c():
+                    return body()
+            elif variant == 1:
+                def c(task):
+                    return body()
+            else:
+                def c(**kw):
+                    return body()
+            return c
+        if k == 'S':
+            words = [(['rm', '-f'] if o == 'rm' else ['touch']) + [w.path(f)] for o, f in ops]
+            if variant == 1 and len(words) == 1 and not fail:
+                return list(words[0])              # argument list: no shell
+            text = ' && '.join(' '.join(x) for x in words) + (' ; false' if fail else '')
+            if variant == 2:
+                from doit.action import CmdAction
+                return CmdAction(text)
+            return text
+        raise ValueError(a)
+
+    def task_dict(self, name, sub=None):
+        w, t = self, self.spec['tasks'][name]
+
+        def act():
+            RAN.append(name)
+            for g in t['targets']:
+                w.write(g, 2)
+        d = {'actions': [act], 'file_dep': [w.path(f) for f in t['file_dep']], 'targets': [w.path(g) for g in t['targets']],
+             'task_dep': list(t['task_dep']), 'setup': list(t['setup'])}
+        if sub is not None:
+            d['name'] = sub
+        cl = t['clean']
+        if cl is True:
+            d['clean'] = True
+        elif cl is not None:
+            d['clean'] = [w.make_clean(name, i, a) for i, a in enumerate(cl)]
+        return d
+
+    def namespace(self):
+        w = self
+        cfg = {'dep_file': w.dbpath, 'backend': BACKEND_OPT[w.backend], 'check_file_uptodate': CK_OPT[w.ck],
+               'reporter': RecReporter, 'verbosity': 0, 'continue': True}
+        if self.spec.get('default') is not None:
+            cfg['default_tasks'] = list(self.spec['default'])
+        ns = {'DOIT_CONFIG': cfg}
+
+        def plain(n):
+            def creator():
+                return w.task_dict(n)
+            return creator
+        for n in self.spec['order']:
+            if n == 'G':
+                def task_G():
+                    for sub in ('a', 'b'):
+                        if 'G:' + sub in w.spec['tasks']:
+                            yield w.task_dict('G:' + sub, sub)
+                ns['task_G'] = task_G
+            else:
+                ns['task_' + n] = plain(n)
+        return ns
+
+    def table(self):
+        """the model's table: rows in the loader's order, dependencies as the real TaskControl leaves them"""
+        from doit.control import TaskControl
+        task_list = self.loaded()
+        tc = TaskControl(task_list)
+        rows = []
+        for t in task_list:
+            tt = tc.tasks[t.name]
+            sp = self.spec['tasks'].get(t.name)
+            cl = None if sp is None else sp['clean']
+            rows.append(dict(name=t.name, task_dep=list(tt.task_dep), setup=list(tt.setup_tasks), sub=tt.subtask_of,
+                             clean=([] if cl is None else cl), targets=[] if sp is None else list(sp['targets'])))
+        return rows
+
+    def existing(self):
+        return [f for f in CFILES if os.path.isfile(self.path(f))]
+
+
+def coq_ctable(rows):
+    out = []
+    for r in rows:
+        cl = 'None' if r['clean'] is True else '(Some [%s])' % '; '.join(coq_act(a) for a in r['clean'])
+        out.append('CT %d%%N %s %s %s %s %s' % (NAME_ID[r['name']], nlist(NAME_ID[x] for x in r['task_dep']), nlist(NAME_ID[x] for x in r['setup']),
+                                            'None' if r['sub'] is None else '(Some %d%%N)' % NAME_ID[r['sub']], cl, nlist(r['targets'])))
+    return '[' + '; '.join(out) + ']'
+
+
+def parse_clean_args(args):
+    o = dict(dry=False, cleandep=False, cleanall=False, forget=False, pos=[])
+    for a in args[1:]:
+        if a in ('-n', '--dry-run'):
+            o['dry'] = True
+        elif a in ('-c', '--clean-dep'):
+            o['cleandep'] = True
+        elif a in ('-a', '--clean-all'):
+            o['cleanall'] = True
+        elif a == '--forget':
+            o['forget'] = True
+        else:
+            o['pos'].append(a)
+    return o
+
+
+def coq_sel(items, names, pats):
+    """names -> SN id; anything with '*' -> SP k, the k-th row of the fnmatch table (real fnmatch on the real names)"""
+    import fnmatch
+    out = []
+    for x in items:
+        if '*' in x:
+            pats.append([NAME_ID[n] for n in names if fnmatch.fnmatch(n, x)])
+            out.append('SP %d%%N' % (len(pats) - 1))
+        else:
+            out.append('SN %d%%N' % NAME_ID.get(x, 20))
+    return '[' + '; '.join(out) + ']'
+
+
+def clean_observation(w, rc, txt, trace):
+    """the command as one sequence of events (layout of enc_cres up to the first -1 -1); None, code on an error"""
+    if rc not in (0, None):
+        if 'is not a task' in txt:
+            return [96]
+        if 'KeyError' in txt:
+            return [97]
+        return [98, rc if isinstance(rc, int) else 99]
+    # printed lines with their offsets
+    lines, off = [], 0
+    for ln in txt.split('\n'):
+        lines.append((off, ln))
+        off += len(ln) + 1
+    items = [(r[-1], 0, i, r) for i, r in enumerate(trace) if r[0] in ('clean', 'exec')]
+    items += [(o, 1, i, ('line', ln)) for i, (o, ln) in enumerate(lines) if ln.strip()]
+    items.sort(key=lambda x: (x[0], x[1], x[2]))
+    # the flag a python-action's callable received: the 'got' / 'targets' record that follows its 'exec' record
+    flag_of = {}
+    for i, r in enumerate(trace):
+        if r[0] == 'exec' and r[3] == 'py':
+            fl = 9
+            for r2 in trace[i + 1:]:
+                if r2[0] in ('exec', 'clean'):
+                    break
+                if r2[0] == 'got':
+                    fl = 2 if r2[3] is None else (1 if r2[3] is True else 0 if r2[3] is False else 8)
+                    break
+                if r2[0] == 'targets':
+                    fl = 1 if r2[2] is True else 0 if r2[2] is False else 8
+                    break
+            flag_of[i] = fl
+    cleaned, ev, nann = [], [], {}
+    for pos, _, i, r in items:
+        if r[0] == 'clean':
+            cleaned.append(NAME_ID.get(r[1], 77))
+            ev += [1, NAME_ID.get(r[1], 77), 1 if r[2] is True else 0 if r[2] is False else 8]
+        elif r[0] == 'exec':
+            ev += [3, NAME_ID.get(r[1], 77), 77 if r[2] is None else r[2], 2 if r[3] == 'cmd' else flag_of[i]]
+        else:
+            ln = r[1]
+            m = RX_ANNOUNCE.match(ln)
+            if m:
+                k = nann.get(m.group(1), 0)
+                nann[m.group(1)] = k + 1
+                ev += [2, NAME_ID.get(m.group(1), 77), k]
+                continue
+            m = RX_REMOVING.match(ln)
+            if m:
+                try:
+                    f = w.fileno(m.group(2))
+                except ValueError:
+                    f = 76
+                ev += [4, NAME_ID.get(m.group(1), 77), f]
+            elif ' - removing dir ' in ln or ' - cannot remove ' in ln:
+                ev += [5]
+            # anything else (what a failing clean action writes to stderr) is not an event of the model
+    return [0] + cleaned + [-1] + ev + [-1]
+
+
+class CleanRunner:
+    def __init__(self, ctx, out, backend, spec):
+        self.ctx, self.out, self.backend, self.spec = ctx, out, backend, spec
+        self.w = CleanWorld(ctx, backend, spec)
+        self.cases, self.ncmd = [], 0
+
+    def case_desc(self, extra):
+        return dict(kind='clean-lists', backend=self.backend, spec=self.spec, **extra)
+
+    def violation(self, what, shape, extra):
+        # the replay runs the set-up and this one command (the dry-runs before it changed nothing, or were reported themselves)
+        case = self.case_desc(extra)
+        case['spec'] = dict(self.spec, cmds=[extra['cmd'].split(' ')])
+        self.out.violations.append(dict(what=what, shape=shape, case=case))
+
+    def setup(self):
+        w, sp = self.w, self.spec
+        for f in CFILES:
+            w.write(f, f % 5)
+        tops = [n for n in sp['order']]
+        rc, txt, log = w.doit(['run'] + tops)
+        if rc != 0:
+            raise RuntimeError('initial run failed: rc=%s %s' % (rc, txt[-300:]))
+        for n in sp.get('forget', []):
+            w.doit(['forget', n])
+        for f in sp.get('missing', []):
+            w.delete(f)
+        self.rows = w.table()
+        self.names = [r['name'] for r in self.rows]
+        self.kinds = {(r['name'], i): a[0] for r in self.rows if r['clean'] is not True for i, a in enumerate(r['clean'])}
+
+    def command(self, args):
+        w, out = self.w, self.out
+        o = parse_clean_args(args)
+        recs0, fs0, ex0 = w.db_records(), w.fs_snapshot(), w.existing()
+        del RAN[:]
+        del CLEANED[:]
+        rc, txt, _ = w.doit(args, trace=True)
+        trace = list(TRACE)
+        self.ncmd += 1
+        out.count('cmd:clean-lists:' + ('dry-run' if o['dry'] else 'real'))
+        recs1, fs1, ex1 = w.db_records(), w.fs_snapshot(), w.existing()
+        label = ' '.join(args)
+        # ---- oracle: a dry-run invokes nothing but dryrun-aware python actions (with True) and alters nothing
+        if o['dry']:
+            for r in trace:
+                if r[0] == 'exec':
+                    kind = self.kinds.get((r[1], r[2]))
+                    if r[3] == 'cmd' or kind not in ('T', 'D'):
+                        self.violation('`%s` executed clean action #%s of task %s, a %s without a `dryrun` parameter (clean list of the task: %s)' % (
+                            label, r[2], r[1], {'S': 'shell command', 'P': 'python callable'}.get(kind, 'n action'),
+                            ''.join(a[0] for a in self.spec['tasks'].get(r[1], {}).get('clean') or []) if self.spec['tasks'].get(r[1], {}).get('clean') is not True else 'True'),
+                            'cleanlist-dryrun-executed-action', dict(cmd=label, task=r[1], index=r[2]))
+                elif r[0] == 'got' and r[3] is not True:
+                    if r[3] is not None:          # (a plain callable that ran is reported through its 'exec' record)
+                        self.violation('`%s`: clean action #%s of task %s received dryrun=%r' % (label, r[2], r[1], r[3]),
+                                       'cleanlist-dryrun-flag-not-passed', dict(cmd=label, task=r[1], index=r[2]))
+                elif r[0] in ('targets', 'clean') and r[2] is not True:
+                    self.violation('`%s`: %s of task %s was called with dryrun=%r' % (label, 'clean_targets' if r[0] == 'targets' else 'Task.clean', r[1], r[2]),
+                                   'cleanlist-dryrun-flag-not-passed', dict(cmd=label, task=r[1]))
+            if RAN:
+                self.violation('`%s` executed task actions %s' % (label, RAN), 'cleanlist-dryrun-executed-task-action', dict(cmd=label))
+            if fs1 != fs0:
+                diff = sorted(set(k for k in set(fs0) | set(fs1) if fs0.get(k) != fs1.get(k)))
+                self.violation('`%s` altered the file system: %s' % (label, [('removed ' if k not in fs1 else 'created ' if k not in fs0 else 'modified ') + k for k in diff][:6]),
+                               'cleanlist-dryrun-altered-fs', dict(cmd=label))
+            if recs1 != recs0:
+                self.violation('`%s` altered the dependency DB' % label, 'cleanlist-dryrun-altered-db', dict(cmd=label, before=sorted(recs0), after=sorted(recs1)))
+        # ---- correspondence
+        obs = clean_observation(w, rc, txt, trace)
+        if obs[0] == 0:
+            obs = obs + [1 if f in ex1 else 0 for f in CFILES] + [-7] + w.db_ints(recs1)
+        idx = next_idx()
+        pats = []
+        pos = coq_sel(o['pos'], self.names, pats)
+        selv = o['pos'] or self.spec.get('default')
+        sel = 'None' if selv is None else '(Some %s)' % coq_sel(selv, self.names, pats)
+        tab = '[' + '; '.join(nlist(x) for x in pats) + ']'
+        defs = ('Definition db_# : db := %s.\nDefinition cfs_# : cfs := %s.\nDefinition ctb_# : ctable := %s.\n' % (
+            coq_db(w, recs0), nlist(ex0), coq_ctable(self.rows))).replace('#', str(idx))
+        model = ('enc_cres TASKS FILES CFILES (cclean_cmd N (fm %s) ctb_# (CO %s %s %s %s %s %s) (CW cfs_# db_#))' % (
+            tab, b2c(o['dry']), b2c(o['cleandep']), b2c(o['cleanall']), b2c(o['forget']), pos, sel)).replace('#', str(idx))
+        self.cases.append(dict(defs=defs, model=model, expected=obs, desc=self.case_desc(dict(cmd=label))))
+        return obs
+
+    def run(self):
+        self.setup()
+        for args in self.spec['cmds']:
+            self.command(list(args))
+        return self.cases
+
+
+def gen_ops(rng, present, absent, own_targets):
+    """1-2 file operations that are visible when executed: remove something that exists / create something that does not"""
+    ops = []
+    for _ in range(rng.choice([1, 1, 2])):
+        r = rng.random()
+        if r < 0.25 and absent:
+            ops.append(['mk', rng.choice(absent)])
+        elif r < 0.45 and own_targets:
+            ops.append(['rm', rng.choice(own_targets)])
+        elif r < 0.9:
+            ops.append(['rm', rng.choice([f for f in present if f >= 10] or present)])
+        else:
+            ops.append(['rm', rng.choice(present)])          # possibly a file_dep or another task's target
+    return ops
+
+
+def gen_act(rng, k, present, absent, own_targets):
+    if k == 'T':
+        return ['T']
+    if k == 'D':
+        return ['D', rng.randrange(4), gen_ops(rng, present, absent, own_targets)]
+    if k == 'P':
+        return ['P', rng.randrange(3), gen_ops(rng, present, absent, own_targets), rng.random() < 0.2]
+    return ['S', rng.randrange(3), gen_ops(rng, present, absent, own_targets), rng.random() < 0.2]
+
+
+def gen_clean_world(rng, lists, rich=True):
+    """a world whose tasks carry the given clean lists (strings over TDPS), plus `clean: True` / no clean on the others"""
+    n_lists = len(lists)
+    pool = list(CLEAN_NAMES)
+    rng.shuffle(pool)
+    carriers = pool[:n_lists]
+    others = [n for n in pool[n_lists:] if rng.random() < 0.8]
+    used = carriers + others
+    has_group = any(n.startswith('G:') for n in used)
+    tops = [n for n in ['T0', 'T1', 'T2', '_P', 'C', 'D'] if n in used] + (['G'] if has_group else [])
+    rng.shuffle(tops)
+    missing = sorted(rng.sample(range(10, 15), rng.choice([1, 2])))
+    present = [f for f in CFILES if f not in missing]
+    targets_pool = list(range(5, 10))
+    rng.shuffle(targets_pool)
+    rank = {n: i for i, n in enumerate(rng.sample(used, len(used)))}
+    tasks = {}
+    for n in used:
+        ntg = rng.choice([0, 1, 1, 2]) if targets_pool else 0
+        tg = sorted(targets_pool.pop() for _ in range(min(ntg, len(targets_pool))))
+        lower = [m for m in used if rank[m] < rank[n]]
+        if has_group:
+            lower_g = lower + (['G'] if all(rank[m] < rank[n] for m in used if m.startswith('G:')) and not n.startswith('G:') else [])
+        else:
+            lower_g = lower
+        td = rng.sample(lower_g, min(len(lower_g), rng.choice([0, 0, 1, 1, 2])))
+        su = rng.sample(lower, min(len(lower), rng.choice([0, 0, 0, 1])))
+        tasks[n] = dict(file_dep=sorted(rng.sample(range(5), rng.choice([0, 1, 1, 2]))), targets=tg, task_dep=td, setup=su, clean=None)
+    for n, ks in zip(carriers, lists):
+        tasks[n]['clean'] = [gen_act(rng, k, present, missing, tasks[n]['targets']) for k in ks]
+    for n in others:
+        tasks[n]['clean'] = True if rng.random() < 0.7 else None
+    default = None
+    if rng.random() < 0.3:
+        default = rng.sample(tops, min(len(tops), rng.choice([1, 2])))
+    # commands: every combination of -c / -a / --forget with some selection, all dry; then a real one and a dry one after it
+    sels = [[], [rng.choice(used)], rng.sample(used, min(2, len(used))), ['T*'], ['*'], ['zz']]
+    if has_group:
+        sels += [['G'], ['G:*']]
+    cmds = []
+    for bits in range(8):
+        fl = (['-c'] if bits & 1 else []) + (['-a'] if bits & 2 else []) + (['--forget'] if bits & 4 else [])
+        if rich:
+            chosen = [[]] + rng.sample(sels[1:], 1 if bits else 3)
+        else:
+            chosen = rng.sample(sels[1:], 2) if not bits else [rng.choice(sels)]
+        for sel in chosen:
+            cmds.append(['clean', rng.choice(['-n', '--dry-run'])] + fl + sel)
+    rng.shuffle(cmds)
+    cmds.insert(0, ['clean', '-n', '-a'])
+    real = ['clean'] + [x for x in ['-c', '-a', '--forget'] if rng.random() < 0.4] + rng.choice([[], [rng.choice(used)], rng.sample(used, min(3, len(used)))])
+    cmds += [real, ['clean', '-n', '-a', '--forget']]
+    return dict(order=tops, tasks=tasks, default=default, forget=[n for n in used if rng.random() < 0.15], missing=missing, cmds=cmds)
+
+
+def all_lists(maxlen):
+    res = []
+    def go(prefix):
+        if prefix:
+            res.append(prefix)
+        if len(prefix) < maxlen:
+            for k in 'TDPS':
+                go(prefix + k)
+    go('')
+    return res
+
+
+def clean_worlds(ctx):
+    """specs covering every sequence over {T,D,P,S} up to length 3 (thorough: 4) + random longer lists"""
+    rng = ctx.rng
+    lists = all_lists(ctx.n(3, 4))
+    rng.shuffle(lists)
+    # the documented idiom and its permutations first, one world
+    worlds = [['TSP', 'DS', 'TP', 'SPT', 'PD', 'DTSP']]
+    per = 6
+    for i in range(0, len(lists), per):
+        worlds.append(lists[i:i + per])
+    for _ in range(ctx.n(2, 12)):
+        worlds.append([''.join(rng.choice('TDPS') for _ in range(rng.choice([4, 5, 6]))) for _ in range(rng.choice([3, 5, 6]))])
+    return [gen_clean_world(rng, ls, rich=(not ctx.quick or i == 0)) for i, ls in enumerate(worlds)]
+
+
 # ------------------------------------------------------------------ generators
 def D(fd=(), target=False, utd=(), values=(), result=None):
     return dict(file_dep=list(fd), target=target, uptodate=list(utd), values=list(values), result=result)
@@ -1066,7 +1591,10 @@ RULE = ('scripted histories (calc_dep, missing file_dep with changed dep / false
         'result_dep, empty DB, dangling task_dep) + random histories (3 configurable tasks + optional group with 2 sub-tasks, private task, '
         'calc_dep pair; 5 dependency files, 3 targets; both checkers), backends in rotation; at each probe a sample (or all) of the read-only '
         'command variants, then list -s --all -p, info of every task and a run.  non-trivial = distinct (history, command) executed after at '
-        'least one successful run of the history')
+        'least one successful run of the history.  clean --dry-run: worlds of up to 9 tasks whose clean lists enumerate every sequence over '
+        '{clean_targets, python callable with dryrun, python callable without, shell command} up to length 3 (thorough 4) plus random longer ones, '
+        'with task_dep / setup edges, a group, default_tasks; after a real run, `clean -n` with every combination of -c -a --forget and '
+        'positional selections, then one real clean and a dry-run after it; every command is a non-trivial case')
 
 
 def run(ctx):
@@ -1102,10 +1630,35 @@ def run(ctx):
                     out.nontrivial.add((hi, b, c['desc'].get('cmd'), len(cases)))
                 cases.append(c)
             out.evaluations += r.ncmd
+    # clean --dry-run over clean lists
+    t1 = time.time()
+    specs = clean_worlds(ctx)
+    n_before = len(cases)
+    for wi, spec in enumerate(specs):
+        b = backends[wi % 3]
+        r = CleanRunner(ctx, out, b, spec)
+        try:
+            cs = r.run()
+        except Exception as e:  # noqa
+            import traceback
+            cs = r.cases + [dict(model='[0]', expected=[97, len(type(e).__name__)], desc=dict(error=traceback.format_exc()[-900:], kind='clean-lists', spec=spec, backend=b))]
+        out.count('clean-world:%s' % b)
+        for t_ in spec['tasks'].values():
+            if isinstance(t_['clean'], list):
+                out.count('clean-list-length:%d' % len(t_['clean']))
+                out.extra.setdefault('_lists', set()).add(''.join(a[0] for a in t_['clean']))
+        for c in cs:
+            out.nontrivial.add(('clean', wi, b, c['desc'].get('cmd'), len(cases)))
+            cases.append(c)
+        out.evaluations += r.ncmd
+    out.extra['clean_lists_distinct_kind_sequences'] = len(out.extra.pop('_lists', set()))
+    out.extra['clean_worlds'] = len(specs)
+    out.extra['clean_commands'] = len(cases) - n_before
+    out.extra['clean_seconds'] = round(time.time() - t1, 1)
     out.extra['command_runs'] = out.evaluations
     out.extra['impl_seconds'] = round(time.time() - t0, 1)
     if cases:
-        for c in (cases[0], cases[len(cases) // 2]):
+        for c in (cases[0], cases[n_before // 2], cases[n_before], cases[-2]):
             out.samples.append(dict(cmd=c['desc'].get('cmd'), backend=c['desc'].get('backend'), observed=c['expected'][:60]))
     bad = common.compare_with_model(ctx, PRE, cases, tag='c20')
     out.traces_validated = len(cases)
@@ -1113,9 +1666,11 @@ def run(ctx):
         out.mismatches.append(dict(case=cases[i]['desc'], impl=cases[i]['expected'], model=m))
     out.assumptions = ['interpretation fixed in DESIGN C20: creating an empty DB file where none existed is not an alteration; only logical DB content and non-DB files are compared',
                        'callables in uptodate are oracles (Some true / Some false / None); tools.run_once, config_changed (string form) and result_dep on a plain task are modelled',
-                       'help, dumpdb, tabcompletion and clean --dry-run are tied by snapshots only (model: no transition)',
+                       'help, dumpdb and tabcompletion are tied by snapshots only (model: no transition); so are the clean --dry-run variants inside the list/info histories',
+                       'clean lists: what a user-written clean action does to files is an oracle carried by the action; the instrumented callables with a `dryrun` parameter honour it (hypothesis `honest` of C20_clean_cmd_dryrun_frame); targets are regular files (directories: C14)',
                        'layout of the printed lines (--quiet, --template, column width, the attribute listing of info) is not modelled']
     out.extra['trusted_base'] = ['harness/c20.py: World (real commands in-process), snapshots, parsers of the printed text, State (Coq literals of the state read back), true_reasons (oracle)',
+                                 'harness/c20.py: CleanTrace (sys.setprofile record of Task.clean / action.execute / clean_targets calls), CleanWorld (instrumented clean callables, shell commands), clean_observation',
                                  'md5 oracle = identity on content ids (the 5 byte strings used have distinct digests); name order oracle = Python sorted() on the task names']
     return out
 
@@ -1123,6 +1678,12 @@ def run(ctx):
 def replay(ctx, payload):
     out = Outcome()
     case = payload.get('case', {})
+    if case.get('kind') == 'clean-lists':
+        r = CleanRunner(ctx, out, case.get('backend', 'json'), case['spec'])
+        r.run()
+        for v in out.violations:
+            print('VIOLATION', v['shape'], v['what'])
+        return 1 if out.violations else 0
     h = [tuple(s) if not isinstance(s, tuple) else s for s in case.get('history', [])]
     h = [tuple(list(s[:2]) + [dict(s[2])] if s[0] == 'SetDef' else s) for s in h]
     r = Runner(ctx, out, case.get('backend', 'json'), h, case.get('shape', {}), 'replay')
